@@ -88,7 +88,7 @@ func c18Sessions(ctx *Ctx, r *hv.Rng) int {
 			}
 		}
 	}()
-	nc := ctx.Scale(16, 48)
+	nc := ctx.Scale(16, 64)
 	seeds := make([]uint64, nc)
 	for i := range seeds {
 		seeds[i] = r.Next()
@@ -182,7 +182,7 @@ func c18Streams(ctx *Ctx, r *hv.Rng) int {
 	})
 	defer e.close()
 	total := 0
-	for i := 0; i < ctx.Scale(3, 20); i++ {
+	for i := 0; i < ctx.Scale(3, 60); i++ {
 		hold := make(chan struct{})
 		if i%2 == 1 {
 			e.be.Default = fb.Outcome{Kind: fb.OkRows, Hold: hold}
@@ -247,7 +247,7 @@ func c18Topology(ctx *Ctx, r *hv.Rng) int {
 			}
 		}(c)
 	}
-	for k := 0; k < ctx.Scale(8, 40); k++ {
+	for k := 0; k < ctx.Scale(8, 120); k++ {
 		switch r.Intn(3) {
 		case 0:
 			var t []int
@@ -374,7 +374,7 @@ func c18CrossVersion(ctx *Ctx, r *hv.Rng) int {
 		panic("c18: prepare")
 	}
 	ops := 0
-	for round := 0; round < ctx.Scale(12, 80); round++ {
+	for round := 0; round < ctx.Scale(12, 300); round++ {
 		be.Forget(1)
 		be.Forget(2)
 		var wg sync.WaitGroup
